@@ -415,8 +415,11 @@ def finish(ctx, level, technique_note=""):
         "wall_s": round(time.time() - ctx.t0, 2),
         "violations": len(ctx.violations),
     }
-    os.makedirs(os.path.join(VERIF, "evidence"), exist_ok=True)
-    with open(os.path.join(VERIF, "evidence", ctx.prop + ".json"), "w") as f:
+    # VERIF_EVIDENCE_DIR: experiments against a scratch worktree (tools/seedeval.py) must not
+    # overwrite the evidence of /repo itself
+    evdir = os.environ.get("VERIF_EVIDENCE_DIR") or os.path.join(VERIF, "evidence")
+    os.makedirs(evdir, exist_ok=True)
+    with open(os.path.join(evdir, ctx.prop + ".json"), "w") as f:
         json.dump(ev, f, indent=1, sort_keys=True, default=str)
         f.write("\n")
     for k in ctx.known:
